@@ -33,10 +33,10 @@ static Verdict run_c07(const Case &c)
   if (len >= (1ull << 32))
     v.classes.push_back("len>=2^32_bytes");
   bytes got, want;
-  if (entry == "synth")
+  if (entry == "synth" || entry == "bigstring")
   {
     uint32_t pat = (uint32_t)c.geti("pat");
-    got = wapi::hash_synth(alg, len, pat);
+    got = entry == "synth" ? wapi::hash_synth(alg, len, pat) : wapi::hash_string_synth(alg, len, pat);
     want = ref_synth(alg, len, pat);
   }
   else
@@ -194,6 +194,26 @@ static void fixed_c07(Ctx &ctx)
     c.set("entry", "synth");
     c.set("len", std::to_string(j.second));
     c.seti("pat", 12345);
+    eval_fixed(*p, ctx, c);
+  }
+  // the in-memory entry point with messages of 2^29 bytes and more (512 MiB materialised per case)
+  std::vector<std::pair<int, uint64_t>> sjobs = {{1, (1ull << 29)}, {1, (1ull << 29) + 5}, {0, (1ull << 29) + 56}, {1, (1ull << 29) - 1}};
+  if (ctx.thorough())
+  {
+    sjobs.push_back({2, (1ull << 29)});
+    sjobs.push_back({0, (1ull << 29)});
+    sjobs.push_back({1, (1ull << 31) + 7});
+    sjobs.push_back({2, (1ull << 29) + 63});
+  }
+  for (auto &j : sjobs)
+  {
+    if (!mine(ctx, i++))
+      continue;
+    Case c;
+    c.seti("alg", j.first);
+    c.set("entry", "bigstring");
+    c.set("len", std::to_string(j.second));
+    c.seti("pat", 777);
     eval_fixed(*p, ctx, c);
   }
 }
